@@ -143,12 +143,48 @@ def known_replays(ctx: Ctx, part: Partial):
             part.violations.append(Violation(c, f"C02:{payload['format']}:{c}", f"known-finding reproducer {k['id']} now fails differently: {fails}", payload))
 
 
+# ---- spreadsheets: the main text of a workbook is its cell text, sheet by sheet, row by row ------------------------------------------
+def judge_grid_text(grid, fmt):
+    import io
+    from sharepoint2text.parsing.router import get_extractor
+    from vf.gen import sheets
+    from vf.gen.tokens import check_sequence
+    fn = {"xlsx": sheets.render_xlsx, "ods": sheets.render_ods, "xls": sheets.render_xls}[fmt]
+    try:
+        res = list(get_extractor("x." + fmt)(io.BytesIO(fn(grid)), "x." + fmt))
+        text = "\n".join(r.get_full_text() for r in res)
+    except Exception as e:  # noqa
+        return [("raised", f"{type(e).__name__}: {e}")]
+    want = [c["v"] for sh in grid["sheets"] for row in sh["rows"] for c in row if c and isinstance(c["v"], str) and c["v"][:2] == "ZB"]
+    return check_sequence(want, text)
+
+
+def grid_shard(ctx: Ctx, fmt: str):
+    from vf.gen import sheets
+    part = Partial()
+
+    def ev(grid):
+        sheets.validate(grid)
+        fails = judge_grid_text(grid, fmt)
+        ncell = sum(1 for sh in grid["sheets"] for row in sh["rows"] for c in row if c)
+        part.case(digest([fmt, grid]), ncell >= 4 and (len(grid["sheets"]) >= 2 or any(c is None for sh in grid["sheets"] for row in sh["rows"] for c in row)),
+                  sample={"format": fmt, "sheets": [[len(s["rows"]), len(s["rows"][0]) if s["rows"] else 0] for s in grid["sheets"]]} if part.evaluations % 41 == 0 else None, fmt=fmt, leg="grid")
+        return [Violation(c, f"C02:{fmt}:{c}", f"[{fmt} grid] {d}", {"kind": "grid", "format": fmt, "model": grid}) for c, d in fails[:1]]
+    # plain string headers: the header conventions of xlsx/xls tables (C13's listed findings) are about get_table(), not about the text
+    hyp_search(ctx, f"c02-grid-{fmt}", sheets.grids(fmt, headers="plain"), ev, ctx.n(300, 5000), part)
+    return part
+
+
 def run(ctx: Ctx) -> Partial:
     part = Partial()
     known_replays(ctx, part)
     part.merge(shard_map(ctx, "vf.props.c02", "shard", len(FORMATS), extra_per_shard=[[f] for f in FORMATS]))
+    if not os.environ.get("VF_FORMATS"):
+        part.merge(shard_map(ctx, "vf.props.c02", "grid_shard", 3, extra_per_shard=[["xlsx"], ["ods"], ["xls"]]))
     return part
 
 
 def replay(ctx: Ctx, payload: dict):
+    if payload.get("kind") == "grid":
+        return [Violation(c, f"C02:{payload['format']}:{c}", f"[{payload['format']} grid] {d}", payload) for c, d in judge_grid_text(payload["model"], payload["format"])[:1]]
     return evaluate(ctx, payload["model"], payload["format"], None, payload.get("render_kw"))
